@@ -340,12 +340,131 @@ pub fn c05(ctx: &Ctx) -> (CheckMeta, Outcome) {
     let mut out = sweep(ctx);
     out.merge(encode_side(ctx));
     out.merge(state_space(ctx));
+    out.merge(helper_functions(ctx));
     out.cov.extra.insert("premise_tables_usable_by_reader_kind".into(), json!(ctx.diag));
     let meta = CheckMeta {
         property: "C05".into(),
         level: "model_checking".into(),
-        rule: "(1) complete sweep of every decode-table index (2^9 gamma, 2^11 delta, 2^12 zeta3, BE and LE) followed by 4 (thorough 8) continuations, at every offset 0..=2W+1, reached plainly and after a full-width peek, on a zero-extended stream and on a strict stream whose last word holds the end of the codeword; every read variant (default method, every table-flag combination, table-free) on clones must return the reference value, end at the reference position and leave a reader that reads the next bits correctly; (2) every encode/length table entry and 70 values beyond WRITE_MAX through every write variant: same bits, same lengths, read back by 3 readers; LEN tables vs formula; (3) BFS to the fixpoint of the reader state space on images of valid gamma/delta/zeta3 codewords with all table operations in the alphabet; table operations are only issued on reader kinds whose construction printed no diagnostic for that table (probed in a child process); evaluations = (index, continuation) pairs; non-trivial = codeword at least as long as the index width".into(),
+        rule: "(1) complete sweep of every decode-table index (2^9 gamma, 2^11 delta, 2^12 zeta3, BE and LE) followed by 4 (thorough 8) continuations, at every offset 0..=2W+1, reached plainly and after a full-width peek, on a zero-extended stream and on a strict stream whose last word holds the end of the codeword; every read variant (default method, every table-flag combination, table-free) on clones must return the reference value, end at the reference position and leave a reader that reads the next bits correctly; (2) every encode/length table entry and 70 values beyond WRITE_MAX through every write variant: same bits, same lengths, read back by 3 readers; LEN tables vs formula; (4) the public helper functions of the three table modules called directly (read_table_be/le, len_table_be/le, write_table_be/le) on every index / every value up to WRITE_MAX+3: a hit must be the reference (value, length) and advance the reader by exactly that length, read_table and len_table must hit on the same indices, a miss must leave the reader where it was; (3) BFS to the fixpoint of the reader state space on images of valid gamma/delta/zeta3 codewords with all table operations in the alphabet; table operations are only issued on reader kinds whose construction printed no diagnostic for that table (probed in a child process); evaluations = (index, continuation) pairs; non-trivial = codeword at least as long as the index width".into(),
         assumptions: vec!["the library's construction-time diagnostic decides which reader may use which table".into()],
     };
     (meta, out)
+}
+
+
+/// Part 4: the public helper functions of the table modules, called directly.
+fn helper_functions(ctx: &Ctx) -> Outcome {
+    use dsi_bitstream::prelude::*;
+    let mut tasks: Vec<Task> = vec![];
+    for (code, read_bits, write_max) in tables() {
+        for e in End::BOTH {
+            let seed = ctx.seed;
+            tasks.push(Box::new(move || {
+                let mut out = Outcome::new();
+                let cfg = format!("{}/helpers/{}", e.name(), code.name());
+                out.cov.configs.insert(cfg.clone());
+                let mut report = |out: &mut Outcome, op: &str, sym: &str, d: String| {
+                    if out.violations.len() < 12 {
+                        out.violations.push(Violation { property: "C05".into(), system: "table-helpers".into(), config: cfg.clone(), op_class: op.into(), symptom: sym.into(), detail: d, replay: json!({"kind": "none"}) });
+                    }
+                };
+                macro_rules! go {
+                    ($E:ty, $read:path, $len:path, $write:path) => {{
+                        for idx in 0..(1u64 << read_bits) {
+                            for c in 0..2 {
+                                let mut b = Bits::new();
+                                b.push_field(idx as u128, read_bits, e);
+                                b.extend(&continuation(c, seed, idx));
+                                while b.len() % 64 != 0 || b.len() < 128 {
+                                    b.push_bit(1);
+                                }
+                                let reference = match decode(&b, 0, code, e, false) {
+                                    Dec::Ok(v, l) => Some((v, l)),
+                                    _ => None,
+                                };
+                                let bytes = b.to_bytes(e, 64);
+                                let words = crate::rd::words_from_bytes::<u64>(&bytes);
+                                let base = BufBitReader::<$E, _>::new(MemWordReader::<u64, _, false>::new_strict(words));
+                                let mut r1 = base.clone();
+                                let got_r = $read(&mut r1);
+                                let p1 = BitSeek::bit_pos(&mut r1).unwrap() as usize;
+                                let mut r2 = base.clone();
+                                let got_l = $len(&mut r2);
+                                let p2 = BitSeek::bit_pos(&mut r2).unwrap() as usize;
+                                out.cov.evaluations += 2;
+                                out.cov.transitions += 2;
+                                match got_r {
+                                    Some((v, l)) => {
+                                        out.cov.nontrivial += 1;
+                                        if reference != Some((v, l)) || p1 != l {
+                                            report(&mut out, "read_table", "value", format!("index {:#b}: read_table returned ({}, {}) and left the reader at {}, the reference codeword is {:?}", idx, v, l, p1, reference));
+                                        }
+                                    }
+                                    None => {
+                                        if p1 != 0 {
+                                            report(&mut out, "read_table", "position", format!("index {:#b}: a table miss moved the reader to {}", idx, p1));
+                                        }
+                                        if let Some((_, l)) = reference {
+                                            if l <= read_bits {
+                                                report(&mut out, "read_table", "value", format!("index {:#b}: the codeword has {} bits (within the index width) but the table misses", idx, l));
+                                            }
+                                        }
+                                    }
+                                }
+                                match (got_l, got_r) {
+                                    (Some(l), Some((_, lr))) => {
+                                        if l != lr || p2 != l {
+                                            report(&mut out, "len_table", "length", format!("index {:#b}: len_table returned {} and left the reader at {}, read_table says {}", idx, l, p2, lr));
+                                        }
+                                    }
+                                    (None, None) => {
+                                        if p2 != 0 {
+                                            report(&mut out, "len_table", "position", format!("index {:#b}: a table miss moved the reader to {}", idx, p2));
+                                        }
+                                    }
+                                    (a, b2) => report(&mut out, "len_table", "length", format!("index {:#b}: len_table returned {:?} where read_table returned {:?}", idx, a, b2)),
+                                }
+                            }
+                        }
+                        for v in 0..=(write_max + 3) {
+                            let rec = crate::wr::Rec::<u64>::new();
+                            let log = rec.log.clone();
+                            let mut w = BufBitWriter::<$E, _>::new(rec);
+                            let r = $write(&mut w, v);
+                            let _ = w.write_bits(0b1011001, 7);
+                            let _ = BitWrite::<$E>::flush(&mut w);
+                            drop(w);
+                            let cw = crate::model::encode(code, v, e);
+                            out.cov.evaluations += 1;
+                            match r {
+                                Ok(Some(l)) => {
+                                    let mut m = cw.clone();
+                                    m.push_field(0b1011001, 7, e);
+                                    if l != cw.len() || *log.borrow() != m.to_bytes(e, 64) {
+                                        report(&mut out, "write_table", "bytes", format!("write_table({}) returned {} and wrote {}, the reference codeword has {} bits", v, l, crate::util::hex(&log.borrow()), cw.len()));
+                                    }
+                                }
+                                Ok(None) => {
+                                    if v <= write_max {
+                                        report(&mut out, "write_table", "value", format!("write_table({}) misses although WRITE_MAX is {}", v, write_max));
+                                    }
+                                }
+                                Err(_) => report(&mut out, "write_table", "error", format!("write_table({}) failed", v)),
+                            }
+                        }
+                    }};
+                }
+                match (code, e) {
+                    (Code::Gamma, End::BE) => go!(BE, gamma_tables::read_table_be, gamma_tables::len_table_be, gamma_tables::write_table_be),
+                    (Code::Gamma, End::LE) => go!(LE, gamma_tables::read_table_le, gamma_tables::len_table_le, gamma_tables::write_table_le),
+                    (Code::Delta, End::BE) => go!(BE, delta_tables::read_table_be, delta_tables::len_table_be, delta_tables::write_table_be),
+                    (Code::Delta, End::LE) => go!(LE, delta_tables::read_table_le, delta_tables::len_table_le, delta_tables::write_table_le),
+                    (_, End::BE) => go!(BE, zeta_tables::read_table_be, zeta_tables::len_table_be, zeta_tables::write_table_be),
+                    (_, End::LE) => go!(LE, zeta_tables::read_table_le, zeta_tables::len_table_le, zeta_tables::write_table_le),
+                }
+                out
+            }));
+        }
+    }
+    run_all(tasks, threads())
 }
